@@ -241,6 +241,17 @@ impl Model for BW {
                     json!({"agrees": fv == pv, "persistent_engine": pv, "fresh_engine": fv, "goal_true_in_facts_handed_back": handed_back_ok})
                 }
             }
+            "pagg" => {
+                // an aggregate query on the persistent engine, on a throw-away copy of the caller's facts (its value is not observed)
+                if let Some((pe, _)) = self.pengine.as_mut() {
+                    let (gf, gv) = (l["gf"].as_str().unwrap(), l["gv"].as_str().unwrap());
+                    let q = if l["form"].as_str() == Some("malformed") { format!("count(?x) WHERE {}.v ==", gf) }
+                            else { format!("count(?x) WHERE {}.v == {}", gf, lit(gv == "T")) };
+                    let mut scratch = mk_facts_s(&self.facts);
+                    let _ = catch_unwind(AssertUnwindSafe(|| pe.query_aggregate(&q, &mut scratch)));
+                }
+                json!({"ok": true})
+            }
             "rretract" => {
                 // retract, in the attached RETE engine, the k-th most recent live fact (derivations inserted logically by queries)
                 let k = l["k"].as_u64().unwrap_or(1) as usize;
